@@ -352,7 +352,8 @@ def handle : Handler := fun op inp impl =>
     let specB := (specTraceAlt c body endErr).map (render side)
     let traceOk := implEvents == specA || implEvents == specB
     let seenBytes := String.join (seen.map (·.1))
-    let passOk := seen == inner && seenBytes == hex body
+    -- … and nothing else in its (reused) array was touched
+    let passOk := seen == inner && seenBytes == hex body && str (field impl "bufViol") == ""
     let holds := traceOk && passOk && completions == 1
     let p := parse body
     { agree := implEvents == mEvents && completions == 1 && done == mDone && passOk,
@@ -363,7 +364,7 @@ def handle : Handler := fun op inp impl =>
         (if mEvents.any (·.startsWith "ps:") then "+eos" else ""),
       why := if holds then "" else
         (if !traceOk then "trace " ++ toString implEvents ++ " but the body's envelopes give " ++ toString specA
-         else if !passOk then "caller saw " ++ toString seen ++ " but the inner reader returned " ++ toString inner
+         else if !passOk then "caller saw " ++ toString seen ++ " but the inner reader returned " ++ toString inner ++ " " ++ str (field impl "bufViol")
          else s!"trace delivered {completions} times") }
   | "handler" =>
     let tr := field impl "traced"
@@ -387,7 +388,7 @@ def handle : Handler := fun op inp impl =>
     -- WriteHeader(200) on the way out; net/http never sends that header, so it is not compared)
     let silentPanic := bool (field pl "panicked") && nat (field pl "status") == 0
     let passOk := same "saw" && same "inner" && (silentPanic || (same "status" && same "headerAtWH")) &&
-      same "written" && same "finalHeader" && same "flushes" && same "panicked"
+      same "written" && same "finalHeader" && same "flushes" && same "panicked" && str (field tr "bufViol") == ""
     let written := unhex (str (field tr "written"))
     -- the request side ends the whole trace when it fails
     let reqFailed := match h.reqEnd with | some .nil => false | some _ => true | none => false
@@ -399,7 +400,7 @@ def handle : Handler := fun op inp impl =>
       model := toJson mEvents, cls := if reqFailed then "req-failed" else if h.panicked then "panic" else "",
       why := if holds then "" else
         if !traceOk then s!"trace {implEvents} does not match the envelopes of the bodies (request {hex h.reqBytes}, response {hex written})"
-        else if !passOk then "the handler or the underlying writer saw something else with tracing than without"
+        else if !passOk then "the handler or the underlying writer saw something else with tracing than without " ++ str (field tr "bufViol")
         else s!"trace delivered {completions} times" }
   | "rt" =>
     if !(isNull (field impl "panic")) then
@@ -426,7 +427,7 @@ def handle : Handler := fun op inp impl =>
     let passOk := (field impl "transportSaw").compress == (field impl "reqInner").compress &&
       (field impl "callerSaw").compress == (field impl "respInner").compress &&
       String.join ((stepsOf (field impl "transportSaw")).map (·.1)) == hex reqReads.flatten &&
-      bool (field impl "sameErr") && str (field impl "err") == (if fail then "inner" else "nil") &&
+      bool (field impl "sameErr") && str (field impl "err") == (if fail then "inner" else "nil") && str (field impl "bufViol") == "" &&
       (fail || (nat (field impl "status") == nat (field inp "status") && strList (field impl "respHeader") == hdrs &&
         String.join ((stepsOf (field impl "callerSaw")).map (·.1)) == hex respReads.flatten))
     let traceOk := projOk "q" cq reqReads.flatten (some reqErr) true implEvents &&
